@@ -157,6 +157,8 @@ type Explorer struct {
 	stopped   int32
 	trace     bool
 	samplesN  int
+	pinned    map[string]any
+	initial   []int
 }
 
 func (e *Explorer) Run() *HarnessResult {
@@ -171,7 +173,7 @@ func (e *Explorer) Run() *HarnessResult {
 	}
 	e.queue = make(chan workItem, 1<<16)
 	e.pending = 1
-	e.queue <- workItem{}
+	e.queue <- workItem{prefix: e.initial}
 	var wg sync.WaitGroup
 	done := make(chan struct{})
 	for i := 0; i < e.workers; i++ {
@@ -300,6 +302,7 @@ func (e *Explorer) newMachine(solver *Solver, covers map[string]bool) *Machine {
 	m.stubsSeen = map[string]int{}
 	m.trace = e.trace
 	m.params = e.params
+	m.pinned = e.pinned
 	m.resetSched()
 	m.tickers = map[*Value]*Timer{}
 	m.builders = map[*Value]*Str{}
